@@ -28,6 +28,7 @@ RULE = ('histories of 2-6 tasks from {create(persist), launch(persist, nowait), 
         'RemoteProcessThreadController, RemoteProcessController over LoopCommunicator}, programs with and without waits, succeeding and failing; '
         'checkpoints under a second tag are taken by the harness from a partly run instance; distinct by (config, history); non-trivial when '
         '>=1 task was honoured and the model predicted a reply')
+RULE += ('; also: task types resembling launcher attributes, processes failing after recording a result, unpicklable processes, a second launcher on the same persister, tags never saved, a launcher built outside the serving loop')
 ASSUMPTIONS = ['the RabbitMQ transport is replaced by the in-process communicator of pv/comm.py', 'errors may arrive wrapped in RemoteException']
 REQUIRED = ['unsaveable_persist_tasks', 'second_launcher_continues', 'late_failures', 'tasks/create', 'tasks/launch', 'tasks/continue', 'tasks/bogus', 'rejected', 'persisted_checks', 'nowait_replies', 'wait_replies', 'error_replies',
             'route/direct', 'route/thread', 'route/async', 'persister/none', 'persister/mem', 'persister/pickle', 'persister/failing', 'loader/custom',
